@@ -22,13 +22,15 @@ pub const SLACK_Q_ABS: f64 = 0.002;
 pub const SLACK_Q_ABOVE_PMF: f64 = 1.5;
 
 /// entry points through which the interval of an outcome k is obtained
-pub const FRONTS: [&str; 6] = [
+pub const FRONTS: [&str; 8] = [
     "proportion::ci(n, k)",
     "ci_wilson_ratio(n, k/n)",
     "Stats fed in batches (extend x2, add_*, extend) .ci",
     "ci_true(data)",
     "Stats collected from an iterator of unknown length .ci",
     "Stats of shards of 10 merged with + / += .ci",
+    "ci_if(measurements, predicate)",
+    "Stats::extend_if in two batches + add_* .ci",
 ];
 
 fn judge_proportion(n: usize, seed: u64, front: usize, l: &mut Local) {
@@ -85,6 +87,28 @@ fn judge_proportion(n: usize, seed: u64, front: usize, l: &mut Local) {
                 let head = d.len() / 3;
                 // a plain batch chained with a filtered / flattened one: lower size hint = head only
                 let st: proportion::Stats = d[..head].iter().copied().chain(crate::lazy::unsized_iter(&d[head..], 1 + k % 3)).collect();
+                call(|| st.ci(c))
+            }
+            6 => {
+                // measurements and a criterion: trial i is a success iff its measurement is below the threshold
+                let d = data(k);
+                let m: Vec<i32> = d.iter().enumerate().map(|(i, s)| if *s { (i % 7) as i32 } else { 10 + (i % 5) as i32 }).collect();
+                call(|| proportion::ci_if(c, &m, |x| *x < 10))
+            }
+            7 => {
+                let d = data(k);
+                let m: Vec<f64> = d.iter().enumerate().map(|(i, s)| if *s { 0.25 * (i % 4) as f64 } else { 1.0 + (i % 3) as f64 }).collect();
+                let h = n / 2;
+                let mut st = proportion::Stats::default();
+                st.extend_if(&m[..h].to_vec(), |x| *x < 1.0);
+                if h < n {
+                    if d[h] {
+                        st.add_success()
+                    } else {
+                        st.add_failure()
+                    }
+                    st.extend_if(&m[h + 1..].to_vec(), |x| *x < 1.0);
+                }
                 call(|| st.ci(c))
             }
             _ => {
@@ -327,7 +351,7 @@ pub fn run(run: &Arc<Run>) {
         v
     };
     run.set_rule(format!(
-        "deterministic (the seed only shifts the grids): n in {:?}; proportion: the real proportion::ci(conf, n, k) for every outcome 0 <= k <= n (an Err counts as not covering), and for a few further populations the same through ci_wilson_ratio(n, k/n), a Stats fed in batches, ci_true on data, a Stats collected from an iterator of unknown length, and shards merged with + / +=, exact coverage C(p) = sum_k Bin(k;n,p)[p in CI(k)] on a 1601-point p-grid over n p, n(1-p) >= 10 plus the interval end points ± 1e-12; \
+        "deterministic (the seed only shifts the grids): n in {:?}; proportion: the real proportion::ci(conf, n, k) for every outcome 0 <= k <= n (an Err counts as not covering), and for a few further populations the same through ci_wilson_ratio(n, k/n), a Stats fed in batches, ci_true on data, ci_if with a criterion on measurements, Stats::extend_if in batches, a Stats collected from an iterator of unknown length, and shards merged with + / +=, exact coverage C(p) = sum_k Bin(k;n,p)[p in CI(k)] on a 1601-point p-grid over n p, n(1-p) >= 10 plus the interval end points ± 1e-12; \
          quantile: the real quantile::ci_indices on a 197-point q-grid, coverage P(l+1 <= B <= u), B ~ Bin(n,q) (one-sided: P(B >= l+1), P(B <= u)); levels {:?} x 3 kinds. \
          Documented slack: pointwise {}*max-pmf + {}, average |avg - L| <= {} (n >= 25), quantile {}*max-pmf + {} below (and {}*max-pmf above). distinct = distinct (n, kind, level[, q]).",
         ns, LEVELS, SLACK_PT_PMF, SLACK_PT_ABS, SLACK_AVG, SLACK_Q_PMF, SLACK_Q_ABS, SLACK_Q_ABOVE_PMF
@@ -357,7 +381,7 @@ pub fn run(run: &Arc<Run>) {
     let batch_ns: Vec<usize> = if run.cfg.quick() { vec![400, 200, 107, 75, 30] } else { vec![1000, 600, 400, 250, 200, 107, 75, 50, 30] };
     let data_ns: Vec<usize> = if run.cfg.quick() { vec![100, 40] } else { vec![300, 100, 64, 40] };
     let shard_ns: Vec<usize> = if run.cfg.quick() { vec![200, 100, 57] } else { vec![600, 400, 200, 100, 57, 33] };
-    for (f, v) in [(1usize, &ratio_ns), (2, &batch_ns), (3, &data_ns), (4, &data_ns), (5, &shard_ns)] {
+    for (f, v) in [(1usize, &ratio_ns), (2, &batch_ns), (3, &data_ns), (4, &data_ns), (5, &shard_ns), (6, &data_ns), (7, &data_ns)] {
         for &n in v.iter() {
             items.push((f, n + (seed % 3) as usize));
         }
